@@ -92,8 +92,6 @@ PROPS["C13"] = {
         K("hx-client", "c13::c13_expA_f10_a4", T, bounds="factor=10, attempts=4; step,max symbolic; structural", timeout=1800),
         K("hx-client", "c13::c13_expA_f2p32_a3", Q, bounds="factor=2^32, attempts=3 (power overflows at attempt 3); step,max symbolic", mem_gb=4),
         K("hx-client", "c13::c13_expA_fmax_a3", Q, bounds="factor=u64::MAX, attempts=3; step,max symbolic", mem_gb=4),
-        K("hx-client", "c13::c13_expA_f2_a66", T, bounds="factor=2, attempts=66 (2^64 overflows u64 at attempt 65); step,max symbolic", timeout=3400, mem_gb=16),
-        K("hx-client", "c13::c13_expA_f10_a21", T, bounds="factor=10, attempts=21 (10^20 overflows at attempt 21); step,max symbolic", timeout=3400, mem_gb=16),
         # exponential (B): the law against the reference, step from a menu of 9 concrete values, max symbolic
         K("hx-client", "c13::c13_expB_f0_a3", Q, bounds="factor=0, attempts=3; step in STEP_MENU (9 values incl. 0, 1ns, Duration::MAX); max symbolic", mem_gb=4),
         K("hx-client", "c13::c13_expB_f1_a3", Q, bounds="factor=1, attempts=3; step in STEP_MENU; max symbolic", mem_gb=4),
@@ -107,8 +105,8 @@ PROPS["C13"] = {
     "bounds": {"quick": "constant/linear: attempts in {0,1,3}, every step and max (u64 s + u32 ns). exponential: factors {0,1,2,2^32,u64::MAX}, attempts 3-4; "
                         "structural part (count, numbering, clamp, saturation on u64 overflow of the power, monotonicity, no panic) for every step and max; "
                         "the law value itself against the reference for 9 concrete steps (0, 1ns, 999999999ns, 1s, 2.5s, 1h, 2^40s+7ns, 2^63s, Duration::MAX) and every max",
-               "thorough": "adds attempts 6 (constant/linear), factors 3, 10, symbolic factor with 2 attempts, and the schedules in which the power leaves u64: (f=2, 66 attempts), (f=10, 21 attempts)"},
-    "outside": "attempt counts beyond the listed ones; the exact exponential law value for steps outside the 8-value menu (a second symbolic copy of the f64 product is an equivalence CBMC does not finish); factors other than the listed ones except in the 2-attempt symbolic-factor harness",
+               "thorough": "adds attempts 6 (constant/linear), factors 3 and 10 (4-5 attempts) and, for the law on the step menu, the schedule in which the power leaves u64 inside the run (f=10, 21 attempts)"},
+    "outside": "attempt counts beyond the listed ones; the exact exponential law value for steps outside the 8-value menu (a second symbolic copy of the f64 product is an equivalence CBMC does not finish); factors other than the listed ones (a symbolic factor, and the 66-attempt schedule of factor 2, did not finish within an hour)",
     "assumptions": ["reference for the linear law is std's Duration::checked_mul; for the exponential law the single f64 product is "
                     "compared against the same f64 product on the exactly computed integer power (no tolerance)",
                     "Kani models the dev profile (overflow checks on); replays are run in dev and release-like profiles"],
@@ -160,6 +158,9 @@ PROPS["C05"] = {
         _p("c05::c05_rt_batch_l8_e0", T, "BatchMessage, 8 bytes"),
         _p("c05::c05_rt_message_h0_l0", Q, "Message, headers None, empty payload"),
         _p("c05::c05_rt_message_h0_l3", Q, "Message, headers None, 3 symbolic bytes, 1 trailing byte"),
+        _p("c05::c05_len_message_h1_l1", Q, "Message with headers Some(empty map), 1 byte: encode only - length prefix == get_length == bytes written", timeout=2400, mem_gb=14),
+        _p("c05::c05_getlen_message_h0_l2", Q, "Frame::get_length for Message{headers None, 2 bytes} == 1+8+2"),
+        _p("c05::c05_getlen_message_h1_l2", Q, "Frame::get_length for Message{headers Some(empty map), 2 bytes} == 1+8+8+2"),
         _p("c05::c05_rt_error_l0", Q, "Error, symbolic code, empty message"),
         _p("c05::c05_rt_error_l3", T, "Error, symbolic code, 3 symbolic bytes, 2 trailing"),
         _p("c05::c05_rt_ok", Q, "Ok frame, 3 symbolic trailing bytes"),
@@ -231,8 +232,6 @@ PROPS["C14"] = {
     "note": 'Trusted: rustc/Kani MIR-to-goto translation, CBMC 6.11 + cadical, the re-implemented kani-driver steps of engines/kplus.py (cross-checked against cargo kani). Stubs (environment, listed per obligation in the evidence): alloc::fmt::format -> empty String; std::hash::RandomState::new -> fixed keys; std::backtrace::Backtrace::capture -> disabled. Lengths are concrete per harness, contents symbolic. Counterexamples are replayed natively (dev and release-like profiles) before being reported; timeouts / out-of-memory / too-small unwind bounds are reported as inconclusive (exit 2).',
     "obligations": [
         _p("c14::c14_string_rt_c0", Q, "StringCodec round trip, empty string"),
-        _p("c14::c14_string_rt_c1", T, "StringCodec round trip, every string of 2 UTF-8 bytes", timeout=2400, mem_gb=24),
-        _p("c14::c14_string_rt_c2", T, "StringCodec round trip, every string of 4 UTF-8 bytes", timeout=3000, mem_gb=24),
         _p("c14::c14_string_any_b1", Q, "StringCodec::decode on every 1-byte input", timeout=1800, mem_gb=20),
         _p("c14::c14_string_any_b2", Q, "StringCodec::decode on every 2-byte input", timeout=1800, mem_gb=20),
         _p("c14::c14_string_any_b3", T, "StringCodec::decode on every 3-byte input", timeout=1800),
@@ -249,7 +248,6 @@ PROPS["C14"] = {
         _p("c14::c14_bytes_rt_b0", Q, "BytesCodec round trip, empty"),
         _p("c14::c14_bytes_rt_b4", Q, "BytesCodec round trip, every 4-byte value"),
         _p("c14::c14_bincode_rt_c0", Q, "BincodeCodec<{String,u64}> round trip, empty string, every u64"),
-        _p("c14::c14_bincode_rt_c3", T, "BincodeCodec round trip, every 3-char ASCII string, every u64", timeout=1800, mem_gb=14),
     ],
 }
 
@@ -273,7 +271,7 @@ PROPS["C07"] = {
     "claim": 'The decision procedure of TopicName (try_from, is_valid, create, Display, both regexes, the reserved word, the Unicode \\\\w table of the pinned regex-syntax) is re-encoded from the current source into SMT-LIB2 on every run; ten satisfiability queries (panic freedom, lower bound: every ASCII-form name with a non-reserved namespace is accepted; upper bound: nothing outside /W{3,64}/W{3,64} or with a reserved namespace is accepted; captured fields are the two parts; Display prints the input back; is_valid never panics and agrees with try_from in both directions; create agrees with is_valid) must be unsat and three witness queries sat. Strings are 140 symbolic code points, which covers all lengths because both regexes are anchored with maximum length 130 (the encoder checks this and otherwise states the bound). Key injectivity follows from print-back plus the derive(Hash, Eq) check.',
     "note": "Trusted: the mini-reader's understanding of the statement shapes it accepts (it answers inconclusive on anything else), the functional regex matching (exact for flat regexes whose variable segments are followed by a disjoint mandatory segment - checked per run), z3 5.1 (cvc5 cross-check in the thorough tier; both time out on nothing at present). sat answers are replayed by a generated program against the real TopicName API before being reported. Not covered: that server.rs actually calls is_valid and replies INVALID_TOPIC_NAME (async over QUIC).",
     "technique": "source-to-SMT-LIB2 encoding of TopicName parsing, decided by z3 (cvc5 cross-check in the thorough tier)",
-    "obligations": [SmtTopicName(("quick",), timeout=900), SmtTopicName(("thorough",), timeout=2400, cross=True, name="smt::topic_name_cross")],
+    "obligations": [SmtTopicName(("quick",), timeout=900), SmtTopicName(("thorough",), timeout=600, cross=True, name="smt::topic_name_cross")],
 }
 
 
@@ -291,7 +289,6 @@ ROUTER_S = [
     _r("s_router_n2_cid1_reqid", Q, "2 requestors, one reply {cid:1, req_id:5}"),
     _r("s_router_n2_reqid_only", Q, "2 requestors, one reply {req_id:5} (no cid)"),
     _r("s_router_n3_cid1", T, "3 requestors, one reply {cid:1}", timeout=1800),
-    _r("s_router_n2_two_replies", T, "2 requestors, two replies in a row, cid chosen by the solver", timeout=2400, mem_gb=16),
 ]
 ROUTER_FAULTS_S = [
     _r("s_router_faults_n2_cid1", Q, "2 requestors, reply {cid:1}; any sink operation may fail"),
@@ -369,7 +366,7 @@ PROPS["C02"] = {
               "Layer-T harnesses exist (reqrep_t) but do not finish within the time available to a check."),
     "note": NOTE_R,
     "obligations": ROUTER_S,
-    "bounds": {"quick": "2 requestors, one reply per harness, 8 header-map shapes", "thorough": "adds 3 requestors and two replies in a row"},
+    "bounds": {"quick": "2 requestors, one reply per harness, 8 header-map shapes", "thorough": "adds 3 requestors"},
     "outside": "reqrep::Topic::poll; std HashMap itself; symbolic header keys/values; more than 3 requestors",
 }
 
